@@ -1,2 +1,356 @@
-pub fn worker_main() {}
-pub fn gen_corpus(_dir: &str) {}
+//! C16 — Decoding untrusted bytes never panics, aborts or over-allocates.
+//! Cases are decoded in isolated worker processes (`zkverif decode-worker`) under a tracking
+//! allocator; a worker death is attributed to the in-flight case and the worker is respawned.
+
+use super::common::*;
+use super::types::{honest_image, registry, type_id};
+use crate::engine::alloc;
+use crate::engine::wire::{self, Image, Kind};
+use crate::engine::{enum_check, no_panic, panic_sig, CheckDef, Ctx, Fail, Rec, Tier, R};
+use serde::{Deserialize, Serialize};
+use serde_json::json;
+use std::cell::RefCell;
+use std::io::{Read, Write};
+use std::process::{Child, ChildStdin, ChildStdout, Command, Stdio};
+
+// ------------------------------------------------------------------------------------ worker
+
+pub fn worker_main() {
+    let reg = registry();
+    let stdin = std::io::stdin();
+    let stdout = std::io::stdout();
+    let mut inp = stdin.lock();
+    let mut out = stdout.lock();
+    loop {
+        let mut hdr = [0u8; 8];
+        if inp.read_exact(&mut hdr).is_err() {
+            return;
+        }
+        let tid = u32::from_le_bytes(hdr[..4].try_into().unwrap()) as usize;
+        let len = u32::from_le_bytes(hdr[4..].try_into().unwrap()) as usize;
+        let mut bytes = vec![0u8; len];
+        if inp.read_exact(&mut bytes).is_err() {
+            return;
+        }
+        let mut msg = String::new();
+        alloc::arm();
+        let r = no_panic(|| (reg[tid].decode)(&bytes).is_ok());
+        let (mx, tot) = alloc::disarm();
+        let status: u8 = match r {
+            Ok(true) => 0,
+            Ok(false) => 1,
+            Err(d) => {
+                msg = d;
+                2
+            }
+        };
+        let mut resp = vec![status];
+        resp.extend_from_slice(&(mx as u64).to_le_bytes());
+        resp.extend_from_slice(&(tot as u64).to_le_bytes());
+        resp.extend_from_slice(&(msg.len() as u32).to_le_bytes());
+        resp.extend_from_slice(msg.as_bytes());
+        if out.write_all(&resp).is_err() || out.flush().is_err() {
+            return;
+        }
+    }
+}
+
+struct Worker {
+    child: Child,
+    stdin: ChildStdin,
+    stdout: ChildStdout,
+}
+
+impl Worker {
+    fn spawn() -> std::io::Result<Worker> {
+        let exe = std::env::current_exe()?;
+        let mut child = Command::new(exe).arg("decode-worker").stdin(Stdio::piped()).stdout(Stdio::piped()).stderr(Stdio::null()).spawn()?;
+        let stdin = child.stdin.take().unwrap();
+        let stdout = child.stdout.take().unwrap();
+        Ok(Worker { child, stdin, stdout })
+    }
+}
+
+impl Drop for Worker {
+    fn drop(&mut self) {
+        let _ = self.child.kill();
+        let _ = self.child.wait();
+    }
+}
+
+pub enum Outcome {
+    Ok { accepted: bool, max_req: u64, total: u64 },
+    Panic { msg: String, max_req: u64 },
+    Died { status: String },
+}
+
+thread_local! {
+    static WORKER: RefCell<Option<Worker>> = RefCell::new(None);
+}
+
+/// Decode `bytes` as type `tid` in this thread's worker process.
+pub fn decode_isolated(tid: usize, bytes: &[u8]) -> Result<Outcome, String> {
+    WORKER.with(|w| {
+        let mut w = w.borrow_mut();
+        if w.is_none() {
+            *w = Some(Worker::spawn().map_err(|e| format!("cannot spawn decode worker: {}", e))?);
+        }
+        let wk = w.as_mut().unwrap();
+        let mut req = Vec::with_capacity(8 + bytes.len());
+        req.extend_from_slice(&(tid as u32).to_le_bytes());
+        req.extend_from_slice(&(bytes.len() as u32).to_le_bytes());
+        req.extend_from_slice(bytes);
+        let io = (|| -> std::io::Result<Outcome> {
+            wk.stdin.write_all(&req)?;
+            wk.stdin.flush()?;
+            let mut hdr = [0u8; 21];
+            wk.stdout.read_exact(&mut hdr)?;
+            let mx = u64::from_le_bytes(hdr[1..9].try_into().unwrap());
+            let tot = u64::from_le_bytes(hdr[9..17].try_into().unwrap());
+            let ml = u32::from_le_bytes(hdr[17..21].try_into().unwrap()) as usize;
+            let mut msg = vec![0u8; ml];
+            wk.stdout.read_exact(&mut msg)?;
+            Ok(match hdr[0] {
+                0 => Outcome::Ok { accepted: true, max_req: mx, total: tot },
+                1 => Outcome::Ok { accepted: false, max_req: mx, total: tot },
+                _ => Outcome::Panic { msg: String::from_utf8_lossy(&msg).to_string(), max_req: mx },
+            })
+        })();
+        match io {
+            Ok(o) => Ok(o),
+            Err(_) => {
+                // the worker died while decoding this case
+                let status = wk.child.wait().map(|s| format!("{}", s)).unwrap_or_else(|e| e.to_string());
+                *w = None;
+                Ok(Outcome::Died { status })
+            }
+        }
+    })
+}
+
+// ------------------------------------------------------------------------------------- cases
+
+#[derive(Clone, Debug, Serialize, Deserialize, Hash, PartialEq, Eq)]
+pub enum Mut {
+    Honest,
+    Len { atom: usize, value: u64 },
+    Table { atom: usize, entry: usize },
+    RandomAtom { atom: usize, seed: u64 },
+    Truncate { at: usize },
+    Extend { n: usize, seed: u64 },
+    Small { atom: usize, value: u32 },
+    Random { len: usize, seed: u64 },
+    PrefixRandom { keep: usize, len: usize, seed: u64 },
+}
+
+#[derive(Clone, Debug, Serialize, Deserialize)]
+pub struct Case {
+    ty: String,
+    seed: u64,
+    m: Mut,
+}
+
+fn rand_bytes(seed: u64, len: usize) -> Vec<u8> {
+    use rand_core::RngCore;
+    let mut v = vec![0u8; len];
+    rng(seed).fill_bytes(&mut v);
+    v
+}
+
+fn apply(img: &Image, m: &Mut) -> Vec<u8> {
+    match m {
+        Mut::Honest => img.bytes.clone(),
+        Mut::Len { atom, value } => img.with_at(*atom, &value.to_le_bytes()),
+        Mut::Table { atom, entry } => {
+            let t = wire::bad_table(img.atoms[*atom].kind);
+            img.with_at(*atom, &t[*entry % t.len()].bytes)
+        }
+        Mut::RandomAtom { atom, seed } => img.with_at(*atom, &rand_bytes(*seed, img.atoms[*atom].len)),
+        Mut::Truncate { at } => img.bytes[..(*at).min(img.bytes.len())].to_vec(),
+        Mut::Extend { n, seed } => {
+            let mut b = img.bytes.clone();
+            b.extend(rand_bytes(*seed, *n));
+            b
+        }
+        Mut::Small { atom, value } => {
+            let a = &img.atoms[*atom];
+            let v: Vec<u8> = match a.len {
+                1 => vec![*value as u8],
+                4 => value.to_le_bytes().to_vec(),
+                _ => (*value as u64).to_le_bytes().to_vec(),
+            };
+            img.with_at(*atom, &v)
+        }
+        Mut::Random { len, seed } => rand_bytes(*seed, *len),
+        Mut::PrefixRandom { keep, len, seed } => {
+            let mut b = img.bytes[..(*keep).min(img.bytes.len())].to_vec();
+            b.extend(rand_bytes(*seed, *len));
+            b
+        }
+    }
+}
+
+fn label(img: &Image, m: &Mut) -> String {
+    match m {
+        Mut::Honest => "honest".into(),
+        Mut::Len { atom, value } => {
+            let n = match img.atoms[*atom].kind {
+                Kind::Len(n) => n,
+                _ => 0,
+            };
+            let v = *value;
+            format!(
+                "length-prefix/{}",
+                if v == 0 { "0".to_string() } else if v == n.wrapping_sub(1) { "n-1".into() } else if v == n + 1 { "n+1".into() } else if v == 1 << 32 { "2^32".into() } else if v == 1 << 60 { "2^60".into() } else if v == u64::MAX { "2^64-1".into() } else { "other".into() }
+            )
+        }
+        Mut::Table { atom, .. } => format!("atom-invalid-table/{:?}", img.atoms[*atom].kind),
+        Mut::RandomAtom { atom, .. } => format!("atom-random/{:?}", img.atoms[*atom].kind),
+        Mut::Truncate { .. } => "truncated".into(),
+        Mut::Extend { .. } => "extended".into(),
+        Mut::Small { .. } => "tag-or-byte".into(),
+        Mut::Random { .. } => "random-string".into(),
+        Mut::PrefixRandom { .. } => "honest-prefix+random".into(),
+    }
+}
+
+const RAND_LENS: [usize; 20] = [0, 1, 7, 8, 9, 15, 16, 31, 32, 33, 47, 48, 49, 95, 96, 97, 200, 1000, 4096, 16384];
+
+fn gen(ctx: &Ctx) -> Vec<Case> {
+    let mut out = Vec::new();
+    let quick = ctx.tier == Tier::Quick;
+    let seeds: Vec<u64> = if quick { vec![ctx.seed % 4] } else { vec![0, 1, 2, 3] };
+    let mut ctr = ctx.seed.wrapping_mul(0x9e37_79b9_7f4a_7c15);
+    let mut next = || {
+        ctr = ctr.wrapping_mul(6364136223846793005).wrapping_add(1442695040888963407);
+        ctr
+    };
+    for (id, t) in registry().iter().enumerate() {
+        for &seed in &seeds {
+            let img = honest_image(id, seed);
+            let n = img.atoms.len();
+            let mut push = |m: Mut| out.push(Case { ty: t.name.clone(), seed, m });
+            push(Mut::Honest);
+            // quick: a spread of atom positions for the big types; all length prefixes always
+            let keep = |ai: usize, cap: usize| !quick || n <= cap || ai < 4 || ai + 4 >= n || (ai.wrapping_mul(2654435761) ^ (ctx.seed as usize)) % n < cap;
+            for (ai, a) in img.atoms.iter().enumerate() {
+                match a.kind {
+                    Kind::Len(k) => {
+                        for v in [0u64, k.wrapping_sub(1), k + 1, 1 << 32, 1 << 60, u64::MAX] {
+                            push(Mut::Len { atom: ai, value: v });
+                        }
+                        if !quick {
+                            for v in [2 * k + 1, (1 << 31) - 1, 1 << 40, (1 << 63) - 1, 1 << 63] {
+                                push(Mut::Len { atom: ai, value: v });
+                            }
+                        }
+                    }
+                    Kind::G1 | Kind::G2 | Kind::B32 | Kind::U64 | Kind::I64 => {
+                        if keep(ai, 24) {
+                            for e in 0..wire::bad_table(a.kind).len() {
+                                push(Mut::Table { atom: ai, entry: e });
+                            }
+                            for _ in 0..if quick { 1 } else { 4 } {
+                                push(Mut::RandomAtom { atom: ai, seed: next() });
+                            }
+                        }
+                    }
+                    Kind::Tag | Kind::U8 | Kind::Bool => {
+                        for v in [0u32, 1, 2, 3, 127, 128, 255, u32::MAX] {
+                            push(Mut::Small { atom: ai, value: v });
+                        }
+                    }
+                }
+                if keep(ai, 16) {
+                    // truncation at the atom boundary and inside the atom
+                    push(Mut::Truncate { at: a.off });
+                    push(Mut::Truncate { at: a.off + a.len / 2 });
+                    if a.len > 1 {
+                        push(Mut::Truncate { at: a.off + a.len - 1 });
+                    }
+                }
+            }
+            for k in [1usize, 7, 8, 64] {
+                push(Mut::Extend { n: k, seed: next() });
+            }
+            for &l in RAND_LENS.iter() {
+                for _ in 0..if quick { 1 } else { 6 } {
+                    push(Mut::Random { len: l, seed: next() });
+                }
+            }
+            for _ in 0..if quick { 3 } else { 24 } {
+                let keepn = (next() as usize) % (img.bytes.len() + 1);
+                push(Mut::PrefixRandom { keep: keepn, len: (next() as usize) % 200, seed: next() });
+            }
+        }
+    }
+    out
+}
+
+pub fn alloc_bound(input_len: usize) -> u64 {
+    65536 + 32 * input_len as u64
+}
+
+fn oracle(c: &Case, rec: &Rec) -> R {
+    let id = type_id(&c.ty).ok_or_else(|| Fail::new("harness/unknown-type", c.ty.clone()))?;
+    let img = honest_image(id, c.seed);
+    let bytes = apply(&img, &c.m);
+    let lab = label(&img, &c.m);
+    let out = decode_isolated(id, &bytes).map_err(|e| Fail::new("harness/decode-worker", e))?;
+    rec.eval(1);
+    let short = c.ty.split('<').next().unwrap_or(&c.ty).to_string();
+    match out {
+        Outcome::Panic { msg, .. } => {
+            return Err(Fail::new(format!("C16/panic/{}", panic_sig(&msg)), format!("decoding a {} from a {} input ({} bytes) panicked: {}", c.ty, lab, bytes.len(), msg)).obs("panic", "Ok or Err"));
+        }
+        Outcome::Died { status } => {
+            return Err(Fail::new(format!("C16/abort/{}", lab), format!("the process decoding a {} from a {} input ({} bytes) died: {}", c.ty, lab, bytes.len(), status)).obs("process death", "Ok or Err"));
+        }
+        Outcome::Ok { accepted, max_req, total } => {
+            let bound = alloc_bound(bytes.len());
+            if max_req > bound {
+                return Err(Fail::new(
+                    format!("C16/over-allocation/{}", lab.split('/').next().unwrap_or(&lab)),
+                    format!("decoding a {} from a {} input of {} bytes requested a single allocation of {} bytes (bound {}; total {})", c.ty, lab, bytes.len(), max_req, bound, total),
+                )
+                .obs(max_req.to_string(), format!("<= {}", bound)));
+            }
+            if matches!(c.m, Mut::Honest) {
+                ensure!(accepted, format!("C16/honest-value-undecodable/{}", short), "an honest {} does not decode", c.ty);
+                rec.note("max-single-allocation-honest", 0);
+            }
+            rec.class(&format!("{}/{}", lab, if accepted { "ok" } else { "err" }));
+        }
+    }
+    if !matches!(c.m, Mut::Honest) {
+        rec.nontrivial((c.ty.clone(), c.seed, format!("{:?}", c.m)));
+    }
+    rec.sample(&lab, || json!({"type": c.ty, "mutation": format!("{:?}", c.m), "input_len": bytes.len()}));
+    Ok(())
+}
+
+pub fn checks() -> Vec<CheckDef> {
+    vec![enum_check(
+        "decode-robustness",
+        "enumerated mutations of honest encodings of every Deserialize type of both crates and the public element codecs (all N): every length-prefix position x {0, n-1, n+1, 2^32, 2^60, 2^64-1}; atoms x invalid-encoding table and random bytes; truncation at and inside atom boundaries; extension by 1-64 bytes; tag / byte atoms x small values; random strings of length 0-16 KiB; honest prefix + random tail (quick samples atom positions of big types, thorough enumerates all); each case decoded in an isolated worker process under a tracking allocator; oracle: the worker returns Ok or Err - no panic (caught, message reported), no process death, largest single allocation request <= 64 KiB + 32*len(input); distinct by (type, mutation)",
+        &["length-prefix/n+1/err", "length-prefix/2^60/err", "truncated/err", "random-string/err"],
+        false,
+        gen,
+        oracle,
+    )]
+}
+
+/// Honest encodings of every type, prefixed by the type id byte, as a libFuzzer seed corpus.
+pub fn gen_corpus(dir: &str) {
+    let _ = std::fs::create_dir_all(dir);
+    for (id, t) in registry().iter().enumerate() {
+        for seed in 0..2u64 {
+            let img = honest_image(id, seed);
+            let mut b = vec![id as u8];
+            b.extend_from_slice(&img.bytes);
+            let name = format!("{}/{:03}-{}-{}", dir, id, t.name.replace(|c: char| !c.is_ascii_alphanumeric(), "_"), seed);
+            let _ = std::fs::write(name, b);
+        }
+    }
+    println!("wrote corpus for {} types to {}", registry().len(), dir);
+}
